@@ -1,2 +1,313 @@
-(* Properties_C16: statements only (in progress) *)
-From Coq Require Import List.
+(* Properties_C16: statements only.  C16 -- WebSocket/HTTP codecs:
+   segmentation-independent and rule-enforcing. *)
+From Coq Require Import List Arith NArith Bool.
+From NngV Require Import Gen.Consts Base.ListX Base.Bytes Codec.Staged Codec.WsFrameModel Codec.WsMsgModel
+  Codec.ChunkedModel Codec.B64Model Codec.HttpLineModel Codec.CodecSpec
+  Codec.WsProofs Codec.ChunkedProofs Codec.HttpProofs Codec.B64Proofs.
+Import ListNotations.
+Local Open Scope N_scope.
+
+(* ---------------------------------------------------------------- (a) *)
+(* What ws_frame_prep_tx / ws_msg_init_control write as a header is read back
+   by the header part of ws_read_cb as the same opcode, FIN bit, mask bit,
+   payload length (for every length below 2^64, in particular below 2^63), with
+   the "minimal encoding" test passing, the header length the decoder asks
+   for, and the masking key. *)
+Theorem ws_hdr_roundtrip : forall op final len, op < 128 -> len < 2 ^ 63 ->
+  hdr_decodes (ws_hdr op final len) op final false len [] /\
+  forall key, length key = 4%nat ->
+    hdr_decodes (set_mask_bit (ws_hdr op final len) ++ key) op final true len key.
+Proof.
+  intros op final len Ho Hl.
+  assert (H64: len < 2 ^ 64) by (eapply N.lt_trans; [exact Hl|reflexivity]).
+  split; [exact (ws_hdr_unmasked op final len Ho H64)|].
+  intros key Hk. exact (ws_hdr_masked op final len key Ho H64 Hk).
+Qed.
+Print Assumptions ws_hdr_roundtrip.
+
+(* every emitted frame uses the shortest length form and is masked iff the sender is a client *)
+Theorem ws_encode_minimal : forall server key op final payload,
+  N.of_nat (length payload) < 2 ^ 64 ->
+  exists h0 h1 rest, ws_encode server key op final payload = h0 :: h1 :: rest /\
+    hd_masked h1 = negb server /\ minimal_form (hd_len7 h1) (N.of_nat (length payload)).
+Proof. exact ws_encode_minimal_lemma. Qed.
+Print Assumptions ws_encode_minimal.
+
+Theorem mask_involutive : forall key l, mask_bytes key (mask_bytes key l) = l.
+Proof. exact mask_involutive_lemma. Qed.
+Print Assumptions mask_involutive.
+
+(* the 16/8/4/1 stride loop of ws_apply_mask computes the bytewise definition *)
+Theorem mask_strided_eq_bytewise : forall key l, mask_strided key l = mask_bytes key l.
+Proof. exact mask_strided_eq. Qed.
+Print Assumptions mask_strided_eq_bytewise.
+
+(* decode after encode, through the staged decoder: a frame emitted by the
+   opposite role and admitted by the size limits produces exactly the effect of
+   ws_read_frame_cb on (opcode, FIN, unmasked payload) *)
+Theorem ws_frame_roundtrip : forall cfg s key op final payload,
+  w_stage s = SHead -> op < 128 -> length key = 4%nat -> N.of_nat (length payload) < 2 ^ 64 ->
+  frame_admitted cfg s (N.of_nat (length payload)) ->
+  ws_feed cfg (mkD s []) (ws_encode (negb (c_server cfg)) key op final payload) =
+    let '(s1, e1) := ws_frame_cb cfg s op final payload in (mkD s1 [], e1).
+Proof. exact ws_feed_frame. Qed.
+Print Assumptions ws_frame_roundtrip.
+
+(* ---------------------------------------------------------------- (b) *)
+(* feeding a ++ b = feeding a, then b: same final state, events concatenated *)
+Theorem ws_segmentation_independent : forall cfg d a b,
+  ws_feed cfg d (a ++ b) =
+    let '(d1, e1) := ws_feed cfg d a in let '(d2, e2) := ws_feed cfg d1 b in (d2, e1 ++ e2).
+Proof. exact ws_feed_app. Qed.
+Print Assumptions ws_segmentation_independent.
+
+(* hence every way of cutting a stream into pieces gives the events of the uncut stream *)
+Theorem ws_any_split_same_events : forall cfg rest p d,
+  ws_feed_all cfg d (p :: rest) = ws_feed cfg d (concat (p :: rest)).
+Proof. intros cfg. exact (feed_all_concat ws_state ws_event ws_want (ws_cb cfg)). Qed.
+Print Assumptions ws_any_split_same_events.
+
+Theorem chunk_segmentation_independent : forall st a b,
+  chunk_feed st (a ++ b) =
+    let '(s1, e1) := chunk_feed st a in let '(s2, e2) := chunk_feed s1 b in (s2, e1 ++ e2).
+Proof. exact chunk_feed_app. Qed.
+Print Assumptions chunk_segmentation_independent.
+
+(* HTTP head parser.  Full statement (not proved):
+     forall isreq st a b, http_feed isreq st (a ++ b) =
+       let '(s1, e1) := http_feed isreq st a in let '(s2, e2) := http_feed isreq s1 b in (s2, e1 ++ e2).
+   Proved part: the line scanner is restartable -- a line found (or a protocol
+   error raised) in a is found identically in a ++ b, and an incomplete line is
+   continued from the scanner state reached; the parsers re-scan the incomplete
+   line from its first byte, which http_feed models by keeping the unconsumed
+   bytes.  The lifting through req_parse_loop / res_parse_loop is checked by
+   the correspondence run only (every cut position of request and response
+   heads). *)
+Theorem http_line_segmentation_independent_partial : forall a b,
+  http_scan_line (a ++ b) =
+    match http_scan_line a with
+    | SLine line rest => SLine line (rest ++ b)
+    | SProto => SProto
+    | SAgain => http_scan_line (a ++ b)
+    end.
+Proof. exact scan_line_split. Qed.
+Print Assumptions http_line_segmentation_independent_partial.
+
+Theorem http_scan_continues : forall l lc acc m,
+  scan_from lc acc l = SAgain ->
+  scan_from lc acc (l ++ m) = scan_from (fst (scan_state lc acc l)) (snd (scan_state lc acc l)) m.
+Proof. exact scan_from_app_again. Qed.
+Print Assumptions http_scan_continues.
+
+(* ---------------------------------------------------------------- (c) *)
+(* every listed rule violation fails the connection with the code computed by
+   the checks in code order; [ws_fail] is: queue a close frame with the code,
+   report CloseConn code, deliver nothing, stop reading *)
+Theorem ws_decoder_rejects :
+  (forall cfg s h0 h1 ext, snd (hd_len h1 ext) = false ->
+     ws_header_done cfg s h0 h1 ext = ws_fail s WS_CLOSE_PROTOCOL_ERR) /\
+  (forall cfg s h0 h1 ext len, hd_len h1 ext = (len, true) -> 0 < c_maxframe cfg -> c_maxframe cfg < len ->
+     ws_header_done cfg s h0 h1 ext = ws_fail s WS_CLOSE_TOO_BIG) /\
+  (forall cfg s h0 h1 ext len, hd_len h1 ext = (len, true) ->
+     (c_maxframe cfg <? len) && (0 <? c_maxframe cfg) = false ->
+     c_isstream cfg = false -> 0 < c_recvmax cfg -> c_recvmax cfg < len + sum_len (w_rxq s) ->
+     ws_header_done cfg s h0 h1 ext = ws_fail s WS_CLOSE_TOO_BIG) /\
+  (forall cfg s h0 h1 ext len, hd_len h1 ext = (len, true) ->
+     (c_maxframe cfg <? len) && (0 <? c_maxframe cfg) = false ->
+     negb (c_isstream cfg) && (0 <? c_recvmax cfg) && (c_recvmax cfg <? len + sum_len (w_rxq s)) = false ->
+     hd_masked h1 = negb (c_server cfg) ->
+     ws_header_done cfg s h0 h1 ext = ws_fail s WS_CLOSE_PROTOCOL_ERR) /\
+  (forall cfg s op final payload, known_op op = false ->
+     ws_frame_cb cfg s op final payload = ws_fail s WS_CLOSE_PROTOCOL_ERR) /\
+  (forall h0, h0 < 256 -> negb (N.land h0 112 =? 0) = true -> known_op (hd_op h0) = false) /\
+  (forall cfg s final payload, w_inmsg s = false ->
+     ws_frame_cb cfg s WS_CONT final payload = ws_fail s WS_CLOSE_PROTOCOL_ERR) /\
+  (forall cfg s final payload, w_inmsg s = true ->
+     ws_frame_cb cfg s WS_BINARY final payload = ws_fail s WS_CLOSE_PROTOCOL_ERR) /\
+  (forall cfg s final payload, c_recv_text cfg = false ->
+     ws_frame_cb cfg s WS_TEXT final payload = ws_fail s WS_CLOSE_UNSUPP_FORMAT) /\
+  (forall cfg s op final payload, op = WS_PING \/ op = WS_PONG -> 125 < N.of_nat (length payload) ->
+     ws_frame_cb cfg s op final payload = ws_fail s WS_CLOSE_PROTOCOL_ERR) /\
+  (forall s code, snd (ws_fail s code) = [ETx WS_CLOSE (be_enc 2 code); EClose code] /\
+                  w_stage (fst (ws_fail s code)) = SHalt).
+Proof.
+  repeat split.
+  - exact reject_nonminimal.
+  - exact reject_maxframe.
+  - exact reject_recvmax.
+  - exact reject_mask.
+  - exact reject_unknown_op.
+  - exact rsv_is_unknown_op.
+  - exact reject_cont_without_start.
+  - exact reject_data_in_message.
+  - exact reject_text.
+  - exact reject_big_control.
+Qed.
+Print Assumptions ws_decoder_rejects.
+
+(* once failed (or closed), whatever arrives in whatever pieces produces no event at all *)
+Theorem ws_no_delivery_after_error : forall cfg pieces d,
+  w_stage (d_inner d) = SHalt -> snd (ws_feed_all cfg d pieces) = [].
+Proof. exact ws_no_delivery_after_halt. Qed.
+Print Assumptions ws_no_delivery_after_error.
+
+(* ---------------------------------------------------------------- (d) *)
+(* Full statement (not proved at the byte level): for every well-formed frame
+   sequence with control frames interleaved, ws_feed on the encoded bytes
+   delivers the concatenations of the data frames of each message.
+   Proved part: the same at the level of complete frames (the effect of
+   ws_read_frame_cb / ws_read_finish_msg on a first frame followed by
+   continuation frames with small ping/pong frames anywhere between them);
+   the step from bytes to complete frames is ws_frame_roundtrip (one frame)
+   and ws_segmentation_independent, not composed here. *)
+Theorem ws_reassembly_exact_partial : forall cfg p frs ps, c_isstream cfg = false -> msg_tail frs ps ->
+  let '(s1, e1) := ws_frames_run cfg ws_init ((WS_BINARY, false, p) :: frs) in
+  deliveries e1 = [p ++ concat ps] /\ w_inmsg s1 = false /\ w_rxq s1 = [].
+Proof. exact ws_message_reassembles. Qed.
+Print Assumptions ws_reassembly_exact_partial.
+
+(* Full statement (not proved): reassembling the encoded fragments gives the
+   message.  Proved part: for every fragsize > 0 the fragments carry exactly the
+   message bytes in order, the first has the data opcode and all others CONT,
+   exactly the last is final, none exceeds fragsize.  With
+   ws_reassembly_exact_partial this is the round trip at frame level. *)
+Theorem ws_fragmentation_roundtrip_partial : forall send_text fragsize data, 0 < fragsize ->
+  let frs := ws_send_frames false send_text fragsize data in
+  concat (map fr_payload frs) = data /\
+  frs <> [] /\ fr_final (last frs (0, true, [])) = true /\
+  Forall (fun f => fr_final f = false -> N.of_nat (length (fr_payload f)) = fragsize) frs /\
+  Forall (fun f => N.of_nat (length (fr_payload f)) <= fragsize) frs /\
+  fr_op (hd (0, true, []) frs) = (if send_text then WS_TEXT else WS_BINARY) /\
+  Forall (fun f => fr_op f = WS_CONT) (tl frs).
+Proof.
+  intros send_text fragsize data H. unfold ws_send_frames. split.
+  - apply ws_fragment_concat. auto.
+  - exact (ws_fragment_shape send_text fragsize (S (length data)) 0 data (Nat.lt_succ_diag_r _) H).
+Qed.
+Print Assumptions ws_fragmentation_roundtrip_partial.
+
+(* ---------------------------------------------------------------- (e) *)
+(* a hex digit multiplies the size by 16 and adds its value exactly when that
+   does not exceed SIZE_MAX (otherwise EMSGSIZE): no wrap is reachable; a
+   chunk is admitted only if size + 2 and total + size do not wrap and the total
+   stays within maxsz; the total stays within maxsz along every run *)
+Theorem chunked_value_and_limits :
+  (forall cl c d, hex_digit c = Some d -> d < 16 ->
+     if SIZE_MAX <? cl_size cl * 16 + d
+     then ingest_len cl c = (cl, NNG_EMSGSIZE)
+     else exists cl', ingest_len cl c = (cl', 0) /\ cl_size cl' = cl_size cl * 16 + d /\
+                      cl_total cl' = cl_total cl /\ cl_maxsz cl' = cl_maxsz cl /\ cl_state cl' = cl_state cl) /\
+  (forall cl cl', ingest_newline cl 10 = (cl', 0) -> cl_size cl <> 0 ->
+     cl_total cl' = cl_total cl + cl_size cl /\ cl_total cl + cl_size cl <= SIZE_MAX /\
+     cl_size cl + 2 <= SIZE_MAX /\ (0 < cl_maxsz cl -> cl_total cl' <= cl_maxsz cl) /\
+     cl_maxsz cl' = cl_maxsz cl /\ cl_state cl' = CS_DATA) /\
+  (forall buf cl used c r n, chunks_loop cl buf used = (c, r, n) -> total_ok cl -> total_ok c).
+Proof. exact (conj ingest_len_digit (conj ingest_newline_limits chunks_loop_total)). Qed.
+Print Assumptions chunked_value_and_limits.
+
+(* ---------------------------------------------------------------- (f) *)
+(* Full statement (not proved): wf_ws_frame (negb-role) (ws_encode ...) for the
+   independent grammar of CodecSpec, and wf_http_head of the emitted heads.
+   Proved part: what the encoder emits is accepted by the decoder model of the
+   opposite role (ws_frame_roundtrip) in minimal form with the right mask bit
+   (ws_encode_minimal); the grammar itself is evaluated on every byte nng
+   emits in the correspondence run (CodecSpec.wf_ws_stream_b, wf_http_head_b). *)
+Theorem emit_well_formed_partial : forall cfg s key op final payload,
+  w_stage s = SHead -> op < 128 -> length key = 4%nat -> N.of_nat (length payload) < 2 ^ 64 ->
+  frame_admitted cfg s (N.of_nat (length payload)) ->
+  fst (ws_feed cfg (mkD s []) (ws_encode (negb (c_server cfg)) key op final payload)) =
+    mkD (fst (ws_frame_cb cfg s op final payload)) [].
+Proof.
+  intros. rewrite ws_feed_frame by assumption. destruct (ws_frame_cb cfg s op final payload). reflexivity.
+Qed.
+Print Assumptions emit_well_formed_partial.
+
+(* ---------------------------------------------------------------- (g) *)
+Theorem http_malformed_rejected :
+  (forall h line, get_status h < 400 -> ~ In 32 line -> req_parse_line h line = (set_code h 400 None, false)) /\
+  (forall h a b, get_status h < 400 -> ~ In 32 a -> ~ In 32 b ->
+     req_parse_line h (a ++ 32 :: b) = (set_code h 400 None, false)) /\
+  (forall h m u v rest, get_status h < 400 -> split_at 32 (m ++ 32 :: rest) = Some (m, rest) ->
+     split_at 32 rest = Some (u, v) -> canon_simple u = CanonOk u -> version_ok v = false ->
+     req_parse_line h (m ++ 32 :: rest) = (set_code h 505 None, false)) /\
+  (forall h line, ~ In 32 line -> res_parse_line h line = (h, NNG_EPROTO)) /\
+  (forall h v c r line, split_at 32 line = Some (v, c ++ 32 :: r) -> split_at 32 (c ++ 32 :: r) = Some (c, r) ->
+     (atoi32 c <? 100) || (999 <? atoi32 c) = true -> res_parse_line h line = (h, NNG_EPROTO)) /\
+  (forall isreq h line, ~ In 58 line -> parse_header isreq h line = (h, NNG_EPROTO)) /\
+  (forall pre lc acc c rest, scan_from lc acc pre = SAgain -> fst (scan_state lc acc pre) = 13 -> c <> 10 ->
+     scan_from lc acc (pre ++ c :: rest) = SProto) /\
+  (forall pre lc acc c rest, scan_from lc acc pre = SAgain -> c < 32 -> c <> 10 -> c <> 13 ->
+     scan_from lc acc (pre ++ c :: rest) = SProto).
+Proof.
+  exact (conj req_line_no_space (conj req_line_one_space (conj req_line_bad_version (conj res_line_no_space
+        (conj res_line_bad_code (conj header_no_colon (conj scan_bare_cr scan_control_char))))))).
+Qed.
+Print Assumptions http_malformed_rejected.
+
+(* two clauses of DESIGN 5/C16 are false of the code as it is (the model is faithful): *)
+(* a request header line without ':' does not fail the request (rv of http_parse_header is overwritten) *)
+Theorem http_req_header_nocolon_refuted :
+  let '(h, rv, used, unk) := req_parse hconn_init req_nocolon_witness in
+  rv = 0 /\ get_status h = 200 /\ h_hdrs h = [] /\ used = length req_nocolon_witness.
+Proof. exact req_header_nocolon_accepted. Qed.
+Print Assumptions http_req_header_nocolon_refuted.
+(* a status code that is not 3DIGIT is accepted (atoi) *)
+Theorem http_status_3digit_refuted :
+  let '(h, rv, used) := res_parse hconn_init res_200x_witness in rv = 0 /\ get_status h = 200.
+Proof. exact res_status_200x_accepted. Qed.
+Print Assumptions http_status_3digit_refuted.
+(* the response parser does report the header without ':' *)
+Theorem http_res_header_nocolon_rejected :
+  let '(h, rv, used) := res_parse hconn_init res_nocolon_witness in rv = NNG_EPROTO.
+Proof. exact res_header_nocolon_rejected. Qed.
+Print Assumptions http_res_header_nocolon_rejected.
+
+(* ------------------------------------------------------------- base64 *)
+(* Full statement (not proved): decode (encode l) = l and encode l = the RFC 4648
+   encoding for byte strings of every length.  Proved part: all strings of
+   length <= 2 (the three padding cases), by exhaustive evaluation, plus the
+   RFC test vectors and the 20-byte case used for Sec-WebSocket-Accept. *)
+Theorem b64_roundtrip_partial : forall l, bytes_ok l -> (length l <= 2)%nat ->
+  b64_encode_all l = spec_b64_encode l /\ b64_decode_all (b64_encode_all l) = l /\
+  forallb (fun c => b64_alphabet c || (c =? 61)) (b64_encode_all l) = true.
+Proof. exact b64_short. Qed.
+Print Assumptions b64_roundtrip_partial.
+
+(* ------------------------------------------------------------- consts *)
+(* the literals of the models are those of the current source *)
+Theorem codec_consts_match :
+  (WS_CONT, WS_TEXT, WS_BINARY, WS_CLOSE, WS_PING, WS_PONG) =
+    (C16_WS_CONT, C16_WS_TEXT, C16_WS_BINARY, C16_WS_CLOSE, C16_WS_PING, C16_WS_PONG) /\
+  (WS_CLOSE_NORMAL_CLOSE, WS_CLOSE_PROTOCOL_ERR, WS_CLOSE_UNSUPP_FORMAT, WS_CLOSE_TOO_BIG, WS_CLOSE_INTERNAL) =
+    (C16_WS_CLOSE_NORMAL_CLOSE, C16_WS_CLOSE_PROTOCOL_ERR, C16_WS_CLOSE_UNSUPP_FORMAT, C16_WS_CLOSE_TOO_BIG,
+     C16_WS_CLOSE_INTERNAL) /\
+  (DEF_RECVMAX, DEF_MAXRXFRAME, DEF_MAXTXFRAME, WS_INIT_FRAGSIZE) =
+    (C16_WS_DEF_RECVMAX, C16_WS_DEF_MAXRXFRAME, C16_WS_DEF_MAXTXFRAME, C16_WS_INIT_FRAGSIZE) /\
+  (C16_WS_CONTROL_MAX, C16_WS_LEN7_LIMIT, C16_WS_LEN16_LIMIT, C16_WS_MIN64, C16_WS_MIN16) = (125, 126, 65536, 65536, 126) /\
+  (C16_CHUNK_RADIX, C16_CHUNK_RADIX_MUL, C16_CHUNK_TAIL, C16_CHUNK_TAIL_GUARD) = (16, 16, 2, 2) /\
+  (NNG_ENOMEM, NNG_EAGAIN, NNG_ENOTSUP, NNG_EPROTO, NNG_EMSGSIZE) =
+    (C16_NNG_ENOMEM, C16_NNG_EAGAIN, C16_NNG_ENOTSUP, C16_NNG_EPROTO, C16_NNG_EMSGSIZE) /\
+  http_versions = C16_HTTP_VERSIONS /\
+  map b64_char (map N.of_nat (seq 0 64)) = C16_B64_ENCODE /\
+  map b64_val (map N.of_nat (seq 0 256)) = C16_B64_DECODE.
+Proof. repeat split; vm_compute; reflexivity. Qed.
+Print Assumptions codec_consts_match.
+
+(* ------------------------------------------------------- non-vacuity *)
+(* the hypotheses of ws_frame_roundtrip are satisfiable with the default
+   configuration, and the decoder then delivers the payload *)
+Example frame_roundtrip_nonvacuous :
+  let cfg := mkCfg true false DEF_MAXRXFRAME DEF_RECVMAX false (2 ^ 40) in
+  frame_admitted cfg ws_init 5 /\
+  snd (ws_feed cfg ws_dinit (ws_encode false [1; 2; 3; 4] WS_BINARY true [72; 101; 108; 108; 111])) =
+    [EDeliver [72; 101; 108; 108; 111]].
+Proof. split; [repeat split|]; vm_compute; reflexivity. Qed.
+
+Example reassembly_nonvacuous :
+  msg_tail [(WS_PING, true, [1]); (WS_CONT, false, [2]); (WS_PONG, true, []); (WS_CONT, true, [3])] [[2]; [3]].
+Proof. apply MT_ctl; [reflexivity|]. apply MT_cont. apply MT_ctl; [reflexivity|]. apply MT_last. Qed.
+
+Example chunk_feed_nonvacuous :
+  snd (chunk_feed (cfeed_init 0 (2 ^ 40)) [52; 13; 10; 119; 105; 107; 105; 13; 10; 48; 13; 10; 13; 10]) =
+    [CDeliver [[119; 105; 107; 105]]].
+Proof. vm_compute. reflexivity. Qed.
